@@ -173,10 +173,12 @@ def cases(tier, seed):
     extra = ["1_0", " 5", "+5 ", "inf", "nan", "1_0.5", "1e400", "0a", "0A", "ABC", "{}", "[1]", "1", "\"x\"", "NaN", "c,1", "c,128", "C,-1", "C,256", "i,1,2", "f,1.5", "f,x",
              "S,65536", "c,1,", ",1", "3M", "3M1I", "1,2,3", "5", "3M,1", "A+", "A+,B-", "A+ B-", "A B", "A  B", "a,+", ",+", "x+,", "*", "**", "3Q", "10$", "$", "1$2"]
     strings += extra
+    # values as the API can hand them over: a valid text followed by a newline, or with a tab inside
+    strings += ["5\n", "abc\n", "A\n", "1.5\n", "0A\n", "3M\n", "*\n", "A+\n", "c,1\n", "[1]\n", "10$\n", "A+,B-\n", "A B\n", "\n", "a\tb", "5\t"]
     for dt in DATATYPES:
         for s in strings:
-            if "\t" in s or "\n" in s:
-                continue
+            if ("\t" in s or "\n" in s) and dt in ("generic", "comment"):
+                continue                     # (free text: pinned on what a document field can be)
             out.append(("field", dt, s))
     # alignments over their own alphabet (digits, every CIGAR operation class of either version, the trace separator and sign, the placeholder)
     astrings = []
